@@ -239,7 +239,7 @@ func init() {
 	Register(Spec[jCase]{
 		ID: "C06", Suite: "synth", CoqImports: imports,
 		CoqType: "list (list op)", CoqRun: jRunName("C06"),
-		Quick: 220, Thorough: 12000, Parallel: 8,
+		Quick: 220, Thorough: 3000, Parallel: 8,
 		Corpus: c06Corpus,
 		Gen:    func(r *Rand, i int) jCase { return jGenSynth(r, 10) },
 		Run:    c06Run, Coq: jCoqOf, Shrink: jShrink,
@@ -247,14 +247,14 @@ func init() {
 	Register(Spec[jCase]{
 		ID: "C06", Suite: "hostile", CoqImports: imports,
 		CoqType: "list (list op)", CoqRun: jRunName("C06"),
-		Quick: 120, Thorough: 6000, Parallel: 8,
+		Quick: 120, Thorough: 1500, Parallel: 8,
 		Gen: func(r *Rand, i int) jCase { return jGenSynth(r, 30) },
 		Run: c06Run, Coq: jCoqOf, Shrink: jShrink,
 	})
 	Register(Spec[jCase]{
 		ID: "C06", Suite: "pair", CoqImports: imports,
 		CoqType: "list (list op)", CoqRun: jRunName("C06"),
-		Quick: 120, Thorough: 6000, Parallel: 8,
+		Quick: 120, Thorough: 1500, Parallel: 8,
 		Gen: func(r *Rand, i int) jCase { return jGenPair(r, 10) },
 		Run: c06Run, Coq: jCoqOf, Shrink: jShrink,
 	})
@@ -262,7 +262,7 @@ func init() {
 	Register(Spec[c06Num]{
 		ID: "C06", Suite: "numeral", CoqImports: imports,
 		CoqType: "Z * string", CoqRun: "Check.C06.run_numeral",
-		Quick: 300, Thorough: 20000,
+		Quick: 300, Thorough: 5000,
 		Corpus: func() []c06Num {
 			return []c06Num{{0, ""}, {-1, "+"}, {9223372036854775807, "9223372036854775807"}, {-9223372036854775808, "-9223372036854775808"},
 				{1, "9223372036854775808"}, {2, "-9223372036854775809"}, {3, "-0"}, {4, "+007"}, {5, "1_0"}, {6, " 1"}, {7, "0x10"}, {8, "--1"}, {9, "+-1"}, {10, "1 "}}
